@@ -44,6 +44,7 @@ def _work(job):
     faulthandler.dump_traceback_later(chunk_wall, exit=True)
     try:
         prop = load_prop(prop_id)
+        prop.known = set(known)
         w = world()
         out = {"runs": 0, "events": 0, "stats": {}, "kinds": {}, "pairs": set(), "finals": set(),
                "states": set(), "known": {}, "violation": None, "samples": [], "digests": [],
@@ -58,6 +59,9 @@ def _work(job):
             out["events"] += r.n_events
             out["sim_ticks"] += w.clock.ticks
             _merge(out["stats"], r.stats)
+            for sk, sv in r.stats.items():
+                if sk.startswith("known."):
+                    out["known"][sk[6:]] = out["known"].get(sk[6:], 0) + sv
             _merge(out["kinds"], r.kinds)
             _merge(out["extra"], r.extra)
             out["finals"].add(r.final_fp)
@@ -115,6 +119,8 @@ def write_replay(prop_id, verif_seed, v, minimised=None, info=None):
 def replay_file(path, strict=False):
     doc = json.load(open(path))
     prop = load_prop(doc["property"])
+    prop.known = set() if strict else set(
+        f.signature for f in findings_mod.load(doc["property"]) if f.status == "open")
     w = world()
     r = engine_replay(prop, w, doc["world"], doc["trace"])
     return doc, r
@@ -148,7 +154,7 @@ def run_property(prop_id, tier="quick", verif_seed=0, nruns=None, workers=None, 
         if not f.witness:
             continue
         wp = os.path.join(HOME, f.witness)
-        doc, r = replay_file(wp)
+        doc, r = replay_file(wp, strict=True)
         got = r.violation.signature if r.violation else None
         witness_log.append({"status": f.status, "witness": f.witness, "observed": got})
         if f.status == "fixed" and got is not None:
